@@ -2,6 +2,7 @@ import JominiModel.Proofs.TextSkip
 import JominiModel.Proofs.TextReaderFaithful
 import JominiModel.Proofs.TextReaderUnfit
 import JominiModel.Proofs.TextReaderFull
+import JominiModel.Proofs.TextReaderFaithfulX
 /-
 C09 (text), document level: on the rendering of a document under a valid reader-safe layout, `skip_container` called
 right after the `Open` token of a container leaves the reader exactly behind that container's matching close: the tokens
@@ -998,7 +999,13 @@ document's tokens after the container, then a clean end at the end of the input.
 fault-free read schedule and every buffer capacity that holds `skipNeed`: three bytes, the tokens in front of the container
 and the tokens behind it — the container's content, however long its tokens, strings and comments are, needs no room
 (`C09_text_skipNeed_le_need`: in particular every capacity ≥ 3 with `need data ≤ cap`, and every capacity larger than the
-input). -/
+input).
+
+EXCLUSION `hsafe` (`skipSafeTok` on the members of the skipped container): no unquoted scalar containing `"`, no `@[…]`
+expression containing `{ } " #`.  It is exactly the complement of two RECORDED FINDINGS (`C09_skipSafe_or_known`): on valid
+documents with such a member the skip does not land behind the matching close — `C09_known_quote_in_unquoted_breaks`
+(`a={ b"c } d`: `Err(Eof)`), `C09_known_interpolation_brace_breaks` (`a={ @[}] } d`: `Ok`, next token `]`) — on the model and
+on the real code (oracle kinds `skip-quote-inside-unquoted`, `skip-brace-inside-interpolation`). -/
 theorem C09_text_skip_matching_close (doc ms : DMembers) (g gc gt : Bytes) (b : Bool) (pre more : List (Bytes × Lexeme))
     (r0 : Reader) (f n : Nat)
     (hocc : itemsM doc = pre ++ itemsV (.cont g ms gc) ++ more)
@@ -1048,7 +1055,8 @@ theorem C09_text_skipNeed_le_need (doc : DMembers) (gt : Bytes) (b : Bool) (item
 followed — with ONLY BLANK bytes (space, tab, LF, CR, `;`) in between, the exact condition under which the code skips —
 by a container: it ends exactly behind the container's matching close; the tokens read afterwards are the document's tokens
 after the container.  Slice reader, and every fault-free schedule and buffer capacity that holds `skipNeed` (see
-`C09_text_skip_matching_close`).  (With a `#` comment in the gap it does not: `C09_known_skipu_comment_breaks`.) -/
+`C09_text_skip_matching_close`; same exclusion `hsafe` = the complement of the two recorded findings there).  (With a `#`
+comment in the gap it does not: `C09_known_skipu_comment_breaks`.) -/
 theorem C09_text_skipu_matching_close (doc ms : DMembers) (g0 hb g gc gt : Bytes) (b : Bool) (pre more : List (Bytes × Lexeme))
     (r0 : Reader) (f n : Nat)
     (hocc : itemsM doc = pre ++ (g0, Lexeme.scalar false hb) :: (itemsV (.cont g ms gc) ++ more))
@@ -1081,6 +1089,139 @@ example : skipNeed 2 1 [97, 61, 123, 32, 34, 108, 111, 110, 103, 32, 115, 116, 1
 example : (skipAt 80 10 2 (fromReader 5 [.repeat_ 1]
     [97, 61, 123, 32, 34, 108, 111, 110, 103, 32, 115, 116, 114, 105, 110, 103, 32, 104, 101, 114, 101, 34, 32, 125, 32, 98, 10])).map
       (fun p => (p.1, p.2.toks, p.2.out)) = some ([.unquoted [97], .op .eq], [.unquoted [98]], .end_) := by
+  decide +kernel
+
+/-! ### what `skipSafeTok` excludes: exactly the two recorded findings -/
+
+/-- shape A: an unquoted scalar that is not an `@[ … ]` expression and contains `"` -/
+def QuoteInUnquoted (lx : Lexeme) : Prop :=
+  ∃ b, lx = .scalar false b ∧ 34 ∈ b ∧ ∀ x ∈ b, isBoundary x = false
+
+/-- shape B: an `@[ … ]` expression whose body contains `{`, `}`, `"` or `#` -/
+def SpecialInInterpolation (lx : Lexeme) : Prop :=
+  ∃ body, lx = .scalar false (64 :: 91 :: (body ++ [93])) ∧ ∃ x ∈ body, skipSpecial x = true
+
+/-- **`C09_skipSafe_or_known`: `skipSafeTok` is exactly the complement of the two recorded findings.**  Every lexeme of a
+valid layout (extended validity: `@variable`s and `@[ … ]` included) is skip-safe, or it is an unquoted scalar containing `"`
+(finding `skip-quote-inside-unquoted`), or an `@[ … ]` expression containing `{`, `}`, `"` or `#` (finding
+`skip-brace-inside-interpolation`) — and the latter two are not skip-safe. -/
+theorem C09_skipSafe_or_known (lx : Lexeme) (after : Bytes) (hv : lx.ValidX after) :
+    (skipSafeTok lx.tok = true ∧ ¬QuoteInUnquoted lx ∧ ¬SpecialInInterpolation lx) ∨
+    (skipSafeTok lx.tok = false ∧ (QuoteInUnquoted lx ∨ SpecialInInterpolation lx)) := by
+  have hspec : ∀ x : UInt8, isBoundary x = false → (x == 34) = false → skipSpecial x = false := by
+    intro x hb h34
+    unfold skipSpecial
+    have h1 : (x == 123) = false := by
+      cases h : x == 123 with | false => rfl | true => rw [eq_of_beq h] at hb; simp [isBoundary] at hb
+    have h2 : (x == 125) = false := by
+      cases h : x == 125 with | false => rfl | true => rw [eq_of_beq h] at hb; simp [isBoundary] at hb
+    have h3 : (x == 35) = false := by
+      cases h : x == 35 with | false => rfl | true => rw [eq_of_beq h] at hb; simp [isBoundary] at hb
+    simp [h1, h2, h3, h34]
+  -- an unquoted scalar without boundary bytes
+  have plain : ∀ b : Bytes, (∀ x ∈ b, isBoundary x = false) →
+      (skipSafeTok (Lexeme.scalar false b).tok = true ∧ ¬QuoteInUnquoted (.scalar false b) ∧ ¬SpecialInInterpolation (.scalar false b)) ∨
+      (skipSafeTok (Lexeme.scalar false b).tok = false ∧ (QuoteInUnquoted (.scalar false b) ∨ SpecialInInterpolation (.scalar false b))) := by
+    intro b hnb
+    have hnoB : ¬SpecialInInterpolation (.scalar false b) := by
+      rintro ⟨body, he, _⟩
+      simp only [Lexeme.scalar.injEq, true_and] at he
+      have := hnb 91 (by rw [he]; simp)
+      simp [isBoundary] at this
+    by_cases hq : 34 ∈ b
+    · right
+      refine ⟨?_, Or.inl ⟨b, rfl, hq, hnb⟩⟩
+      simp only [Lexeme.tok, skipSafeTok]
+      rw [Bool.eq_false_iff]
+      intro hall
+      rw [List.all_eq_true] at hall
+      have := hall 34 hq
+      simp [skipSpecial] at this
+    · left
+      refine ⟨?_, ?_, hnoB⟩
+      · simp only [Lexeme.tok, skipSafeTok, List.all_eq_true]
+        intro x hx
+        have h34 : (x == 34) = false := by
+          cases h : x == 34 with | false => rfl | true => rw [eq_of_beq h] at hx; exact absurd hx hq
+        simp [hspec x (hnb x hx) h34]
+      · rintro ⟨b', he, hq', _⟩
+        simp only [Lexeme.scalar.injEq, true_and] at he
+        subst he; exact hq hq'
+  cases lx with
+  | open_ => left; exact ⟨rfl, by rintro ⟨b, h, _⟩; simp at h, by rintro ⟨b, h, _⟩; simp at h⟩
+  | close => left; exact ⟨rfl, by rintro ⟨b, h, _⟩; simp at h, by rintro ⟨b, h, _⟩; simp at h⟩
+  | op o => left; exact ⟨rfl, by rintro ⟨b, h, _⟩; simp at h, by rintro ⟨b, h, _⟩; simp at h⟩
+  | scalar q b =>
+    cases q with
+    | true => left; exact ⟨rfl, by rintro ⟨b, h, _⟩; simp at h, by rintro ⟨b, h, _⟩; simp at h⟩
+    | false =>
+      rcases hv with hv | ⟨⟨d, r, rfl, hnb⟩, _⟩ | ⟨body, rfl, hbody⟩
+      · simp only [Lexeme.Valid] at hv
+        exact plain b hv.1
+      · refine plain (64 :: d :: r) ?_
+        intro x hx
+        simp only [List.mem_cons] at hx
+        rcases hx with rfl | hx
+        · decide
+        · exact hnb x (by simpa using hx)
+      · -- `@[ body ]`
+        have hnoA : ¬QuoteInUnquoted (.scalar false (64 :: 91 :: (body ++ [93]))) := by
+          rintro ⟨b', he, _, hnb⟩
+          simp only [Lexeme.scalar.injEq, true_and] at he
+          have := hnb 91 (by rw [← he]; simp)
+          simp [isBoundary] at this
+        by_cases hs : ∃ x ∈ body, skipSpecial x = true
+        · right
+          refine ⟨?_, Or.inr ⟨body, rfl, hs⟩⟩
+          obtain ⟨x, hx, hsx⟩ := hs
+          simp only [Lexeme.tok, skipSafeTok]
+          rw [Bool.eq_false_iff]
+          intro hall
+          rw [List.all_eq_true] at hall
+          have := hall x (by simp [hx])
+          simp [hsx] at this
+        · left
+          refine ⟨?_, hnoA, ?_⟩
+          · simp only [Lexeme.tok, skipSafeTok, List.all_eq_true]
+            intro x hx
+            simp only [List.mem_cons, List.mem_append, List.not_mem_nil, or_false] at hx
+            rcases hx with rfl | rfl | hx | rfl
+            · decide
+            · decide
+            · have : skipSpecial x = false := by
+                cases h : skipSpecial x with | false => rfl | true => exact absurd ⟨x, hx, h⟩ hs
+              simp [this]
+            · decide
+          · rintro ⟨body', he, hs'⟩
+            simp only [Lexeme.scalar.injEq, true_and, List.cons.injEq] at he
+            have : body = body' := List.append_cancel_right he
+            subst this; exact hs hs'
+
+/-- **the recorded finding `skip-quote-inside-unquoted`, on the model.**  Input `a={ b"c } d\n` (valid: `b"c` is ONE unquoted
+scalar for `next`): after the tokens `a`, `=`, `{`, `skip_container` takes the `"` for the start of a quoted string and runs
+to the end of the input: `Err(Eof)`; reading tokens and counting opens and closes lands on `d`. -/
+theorem C09_known_quote_in_unquoted_breaks :
+    let data : Bytes := [97, 61, 123, 32, 98, 34, 99, 32, 125, 32, 100, 10]
+    (match readToks 60 3 (fromSlice data) with
+     | some (_, r1) => (match skipContainer 60 r1 with | .err _ .eof => true | _ => false)
+     | none => false) = true ∧
+    (sliceTokens data).toks = [.unquoted [97], .op .eq, .open_, .unquoted [98, 34, 99], .close, .unquoted [100]] ∧
+    (sliceTokens data).out = .end_ := by
+  decide +kernel
+
+/-- **the recorded finding `skip-brace-inside-interpolation`, on the model.**  Input `a={ @[}] } d\n` (valid: `@[}]` is ONE
+unquoted scalar for `next`): after the tokens `a`, `=`, `{`, `skip_container` counts the `}` inside the expression, returns
+`Ok` and lands inside the scalar — the next token is `]` —; reading tokens and counting lands on `d`. -/
+theorem C09_known_interpolation_brace_breaks :
+    let data : Bytes := [97, 61, 123, 32, 64, 91, 125, 93, 32, 125, 32, 100, 10]
+    (match readToks 60 3 (fromSlice data) with
+     | some (_, r1) =>
+       match skipContainer 60 r1 with
+       | .ok r2 () => (match next 60 r2 with | .ok _ (some t) => some t | _ => none)
+       | _ => none
+     | none => none) = some (Token.unquoted [93]) ∧
+    (sliceTokens data).toks = [.unquoted [97], .op .eq, .open_, .unquoted [64, 91, 125, 93], .close, .unquoted [100]] ∧
+    (sliceTokens data).out = .end_ := by
   decide +kernel
 
 /-- **the recorded finding `skipu-comment-before-brace`, on the model.**  Input `a=rgb #k\\n{ 1 } b`: after the tokens `a`,
